@@ -4,7 +4,7 @@ a scratch git worktree of /repo with the patch applied + a copy of the harness w
 import sys, os, subprocess, json, shutil, tempfile
 V = os.path.dirname(os.path.dirname(os.path.abspath(__file__)))
 seed = os.path.abspath(sys.argv[1])
-pids = sys.argv[2:] or ["C%02d" % i for i in range(1, 20) if i != 14]
+pids = sys.argv[2:] or ["C%02d" % i for i in range(1, 20) if i != 14]   # C14 reads /repo itself: tools/try_mutation.sh
 tmp = tempfile.mkdtemp(prefix="orxseed.")
 wt = os.path.join(tmp, "repo")
 try:
@@ -14,7 +14,10 @@ try:
     shutil.copytree(os.path.join(V, "harness"), h, ignore=shutil.ignore_patterns("target"))
     ct = open(os.path.join(h, "Cargo.toml")).read().replace('path = "/repo"', 'path = "%s"' % wt)
     open(os.path.join(h, "Cargo.toml"), "w").write(ct)
-    env = dict(os.environ, ORX_HARNESS_DIR=h, ORX_WORK=os.path.join(tmp, "work"), ORX_OUT=os.path.join(tmp, "out"))
+    # a private copy of the Lean project: the extractors regenerate Orx/Generated/*.lean from the mutated source there
+    lean = os.path.join(tmp, "lean")
+    shutil.copytree(os.path.join(V, "lean"), lean, symlinks=True)
+    env = dict(os.environ, ORX_LEAN_DIR=lean, ORX_HARNESS_DIR=h, ORX_WORK=os.path.join(tmp, "work"), ORX_OUT=os.path.join(tmp, "out"), ORX_REPO_SRC=wt)
     mp = os.path.join(seed, "matrix.json")
     res = json.load(open(mp)) if os.path.exists(mp) else {}
     for p in pids:
